@@ -140,5 +140,50 @@ __CPROVER_ensures(SOUND); \
 void h_##tag(void){ MK_D2(a, b); HGHOSTS; D r; fn(&r, &a, &b); REACH; }
 #define IN2 (d_has(self, g_x) && d_has(x, g_y))
 #define STRICT ((d_bot(self) || d_bot(x)) ==> d_bot(ret))
-//@check id=d_add fn=_ZNK4crab7domains12dis_intervalIN4ikos8z_numberEEplERKS4_ props=C08 unwind=6 bounded="<=2 disjuncts" vary=DS:10,11 timeout=900 first_timeout=600 backends=cadical,kissat
+//@check id=d_add fn=_ZNK4crab7domains12dis_intervalIN4ikos8z_numberEEplERKS4_ props=C08 unwind=3 defs=DMAX=2 bounded="1 disjunct per operand" vary=DS:10 timeout=900 first_timeout=600 backends=cadical,kissat
+//@check id=d_add_12 fn=_ZNK4crab7domains12dis_intervalIN4ikos8z_numberEEplERKS4_ tag=d_add harness=h_d_add props=C08 unwind=4 defs=DMAX=2 bounded="<=2 disjuncts, one operand with 1" vary=DS:11 timeout=900 first_timeout=600 backends=cadical,kissat
 DBIN(d_add, _ZNK4crab7domains12dis_intervalIN4ikos8z_numberEEplERKS4_, 2 * ZB, 1, STRICT, IN2 ==> d_has(ret, g_x + g_y))
+
+/* ================================================================ dis_interval(list, normalize) and normalize */
+/* a list of intervals as the callers build it: a std::vector<interval> with LN arbitrary elements (any order, overlapping,
+ * bottom or top elements allowed) */
+typedef struct S_class_std__vector V;
+#define V_BEGIN(v) ((v)->f0.f0.f0.f0)
+#define V_END(v) ((v)->f0.f0.f0.f1)
+#define V_CAP(v) ((v)->f0.f0.f0.f2)
+static inline long v_n(const V *v){ return (long)(V_END(v) - V_BEGIN(v)); }
+#ifndef LMAX
+#define LMAX 4
+#endif
+static inline bool v_ok(const V *v, long max, i128 z){
+  if (V_BEGIN(v) == 0) return V_END(v) == 0;
+  long n = v_n(v); if (n < 0 || n > max || V_CAP(v) < V_END(v)) return false;
+  bool ok = true;
+  for (long i = 0; i < LMAX; i++) if (i < n) ok = ok && i_okz(V_BEGIN(v)[i], z);
+  return ok; }
+static inline bool v_has(const V *v, i128 g){
+  long n = v_n(v); bool m = false;
+  for (long i = 0; i < LMAX; i++) if (i < n) m = m || i_has(V_BEGIN(v)[i], g);
+  return m; }
+static inline bool v_all_bot(const V *v){
+  long n = v_n(v); bool m = true;
+  for (long i = 0; i < LMAX; i++) if (i < n) m = m && i_bot(V_BEGIN(v)[i]);
+  return m; }
+#ifndef LN
+#define LN 2
+#endif
+#define MK_V(t, n) V t; static I wit_##t##_e[LMAX]; \
+  { I *stg_##t = _Znwm(LMAX * sizeof(I)); V_BEGIN(&t) = stg_##t; V_END(&t) = stg_##t + (n); V_CAP(&t) = stg_##t + (n); \
+    for (long i_##t = 0; i_##t < LMAX; i_##t++) if (i_##t < (n)) wit_##t##_e[i_##t] = stg_##t[i_##t]; }
+#define N_CTORL _ZN4crab7domains12dis_intervalIN4ikos8z_numberEEC1ESt6vectorINS2_8intervalIS3_EESaIS7_EEb
+/* dis_interval(l, true): the normalised value describing exactly the integers of the intervals of l.  A one-element
+ * list is taken as it is (callers never pass a single bottom or top interval). */
+//@check id=d_ctor_list fn=_ZN4crab7domains12dis_intervalIN4ikos8z_numberEEC1ESt6vectorINS2_8intervalIS3_EESaIS7_EEb props=C08,C04 unwind=4 defs=DMAX=2,LMAX=2 vary=LN:1-2 bounded="list of <=2 intervals" timeout=900 first_timeout=600 backends=cadical,kissat mem=8
+void N_CTORL(D *self, V *l, unsigned char normalize)
+__CPROVER_requires(FRESH(d_ctor_list, self, sizeof(D)) && FRESH(d_ctor_list, l, sizeof(V)) && v_ok(l, LMAX, ZB) && v_n(l) >= 1 && normalize == 1 && GRANGE && LOGOFF)
+__CPROVER_requires(v_n(l) != 1 || (!i_bot(V_BEGIN(l)[0]) && !i_top(V_BEGIN(l)[0])))
+__CPROVER_assigns(*self)
+__CPROVER_ensures(d_okn(self, DMAX, ZB))
+__CPROVER_ensures(d_has(self, g_x) == v_has(l, g_x))
+__CPROVER_ensures(d_bot(self) == v_all_bot(l));
+void h_d_ctor_list(void){ MK_V(l, LN); HGHOSTS; D r; N_CTORL(&r, &l, 1); REACH; }
